@@ -8,7 +8,7 @@
        2..=36 the emitted bytes are '0'..'9' / 'a'..'z' (plus one leading '-' for a negative
        BigInt), i.e. ASCII, hence valid UTF-8 (C15_to_str_ascii, C15_ito_str_ascii). *)
 From BigNum Require Import Base BaseLemmas X86 AddSub SpecAddSub AddSubProofs AsmProofs Extracted InstAddSub.
-From BigNum Require Import Div DivProofs DivProofsApi InstDiv Rand SpecRand RandProofs.
+From BigNum Require Import Div DivProofs DivProofsApi InstDiv Rand SpecRand RandProofs InstRand.
 From BigNum Require Import SpecBytes Radix RadixText RadixKernels RadixApi SpecRadix RadixTextProofs
   RadixInst RadixAsciiLemmas InstRadix InstRadixMul.
 Open Scope Z_scope.
@@ -99,8 +99,8 @@ Print Assumptions C15_div_wide_precondition.
    a value below 2^n built from exactly nwords(n) words. *)
 Theorem C15_rand_u32_view : forall n ws rest, 0 <= n -> words ws -> words rest ->
   Z.of_nat (length ws) = nwords n ->
-  gen_biguint n (ws ++ rest) = Ret (enc (cand n ws), rest) /\ 0 <= cand n ws < 2 ^ n.
-Proof. intros; apply gen_biguint_words; auto. Qed.
+  gen_biguint Extracted.rand n (ws ++ rest) = Ret (enc (cand n ws), rest) /\ 0 <= cand n ws < 2 ^ n.
+Proof. intros; apply gen_biguint_words; auto using rand_params_ok. Qed.
 Print Assumptions C15_rand_u32_view.
 
 (* `to_str_radix` builds its String with `from_utf8_unchecked`: every byte it emits is an ASCII
